@@ -138,19 +138,21 @@ PROPS = {
         design_ref='2 / C01',
     ),
     'C03': dict(
-        level='other',
+        level='proof',
         functions=[SEQ + f for f in ('countPos', 'countNeg', 'countNeut', 'FCR', 'delta', '__init__', 'deltaMax', 'deltaMax#permutant', '__permutant_from_reduced_seq')] + [SP + 'get_deltaMax'],
         lemmas=['count_partition', 'npos_nonneg', 'nneg_nonneg', 'nneut_nonneg', 'rmax_lower', 'n_sym_strict_plus', 'n_sym_strict_minus', 'n_sym_strict_zero',
                 'n_sym_nonneg_plus', 'n_sym_nonneg_minus', 'n_sym_nonneg_zero', 'cnt_ext', 'nsym_split', 'nsym_all', 'nsym_none', 'npos_ext', 'nneg_ext', 'dform_ext',
-                'C05_delta_substitution', 'dform_nonneg', 'delta_nonneg', 'cnt_split', 'cnt_nonneg', 'dform_uncharged', 'delta_uncharged'],
+                'C05_delta_substitution', 'dform_nonneg', 'delta_nonneg', 'cnt_split', 'cnt_nonneg', 'dform_uncharged', 'delta_uncharged', 'filter_cnt', 'class_letter_partition'],
         native='c03',
         explanation='proved for all sequences: get_deltaMax() equals dmax_spec(n+, n-, n0) - a function of the three counts only - the running maximum of delta over the documented family (regime dispatch, tie rules, 17/18 boundary, '
                     'every candidate string built as documented, invariants for the eight search loops), from every cache state. With returnSeqDeltaMax=True (fresh object, value cached but permutant absent, both cached) the second component is a string of '
                     'amino-acid letters of the input\'s length with the input\'s numbers of positive, negative and neutral residues whose delta (Das-Pappu definition) EQUALS the returned value: the builder __permutant_from_reduced_seq is proved to '
                     'emit, position by position, a parent residue of the candidate\'s charge class without ever running out of residues, and the class-substitution theorem of C05 transfers the candidate\'s delta. '
-                    'NOT proved: that the permutant uses each input LETTER exactly once (letter-level multiset; the proof is at the level of charge classes) - bounded native check (every composition up to length 14/26, kappa-first histories)',
+                    'The permutant is made of EXACTLY the input\'s residues: every letter occurs in it as often as in the input (loop invariant counting an arbitrary letter in the text written so far against the three '
+                    'per-class residue lists, lemma "counting a letter in a filtered list = counting it among the source positions that pass the filter", and the partition of a letter\'s occurrences over the three classes); '
+                    'the statement is proved for one unconstrained constant letter, which is a proof for every letter. The bounded native check (every composition up to length 14/26, kappa-first histories) runs beside it',
         assumptions=['tie rule of "minority block slid through the majority": on equal block lengths the code slides the neutral (resp. positive) block; the statement does not settle ties and the spec follows the code',
-                     'letter-level multiset equality of the permutant: bounded native check only',
+                     'letter multiset: proved as "for the arbitrary constant LETTER the counts are equal" (generalisation over an unconstrained constant)',
                      '[x for x in s if P(x)] is modelled as a filter (length = count, order kept, onto)'],
         design_ref='2 / C03',
     ),
@@ -288,14 +290,18 @@ PROPS = {
         functions=[SEQ + f for f in ('delta', 'sequence_charge_decoration', 'kappa', 'Omega')],
         lemmas=['npos_ext', 'nneg_ext', 'nneut_ext', 'dform_ext', 'C05_delta_substitution', 'C05_dmax_substitution', 'C05_kappa_substitution',
                 'scd_inner_ext', 'scd_outer_ext', 'C05_scd_substitution', 'npos_inv', 'dform_inv', 'C05_delta_inversion',
-                'scd_inner_inv', 'scd_outer_inv', 'C05_scd_inversion', 'rmax_lower'],
+                'scd_inner_inv', 'scd_outer_inv', 'C05_scd_inversion', 'rmax_lower',
+                'npos_split', 'nneg_split', 'dform_split', 'npos_rev', 'dform_rev', 'C05_delta_reversal', 'C05_dmax_reversal', 'C05_kappa_reversal', 'count_partition'],
         native='c05',
         explanation='relational theorems over the closed forms the API functions are PROVED to return (get_delta = delta_spec, get_SCD = scd_spec, get_deltaMax = dmax_seq, get_kappa = kappa_seq, '
                     'get_Omega = kappa_seq of the recoded string): for any two sequences whose residues have pairwise equal charge class, delta, delta-max, kappa and SCD are equal (inductive extensionality lemmas over the sums, '
                     'all discharged by z3); for any two sequences related by charge inversion, delta and SCD are equal. Omega under substitution inside {P,E,D,K,R} / the other fifteen is the kappa theorem applied to the recoded strings. '
-                    'NOT mechanised: reversal invariance (needs re-indexing lemmas for the window sums) and inversion invariance of delta-max / kappa (the candidate families map onto each other under inversion + reversal) - bounded native relation check '
-                    '(exhaustive patterns up to length 6/8, random sequences incl. skewed compositions with >= 18 neutrals)',
-        assumptions=['reversal (all five) and inversion of delta-max/kappa/Omega: bounded native check only'],
+                    'REVERSAL: for any two sequences with charge(t[j]) == charge(s[N-1-j]), delta, delta-max and kappa are equal (count reversal and blob-sum reversal lemmas by induction, using '
+                    'split lemmas because the sums are defined by peeling the last element; delta-max is a function of the three counts). '
+                    'NOT mechanised: reversal invariance of SCD (triangular double-sum re-indexing) and inversion invariance of delta-max / kappa (the candidate families map onto each other under '
+                    'inversion + reversal) - bounded native relation check (exhaustive patterns up to length 6/8, random sequences incl. skewed compositions with >= 18 neutrals)',
+        assumptions=['reversal of SCD and Omega, inversion of delta-max/kappa/Omega: bounded native check only',
+                     'the relational theorems are stated over the spec functions the API functions are proved to return; the step from "get_kappa() == kappa_seq(seq)" on two objects to the relation is a substitution of equals'],
         design_ref='2 / C05',
     ),
 }
